@@ -93,4 +93,12 @@ def assignAndPosCols (m : Mat) (x v : List Int) : Option Mat :=
     some { ncols := m.ncols, rows := (m.rows.zip x).map fun (row, xi) => v.map (andPos xi) ++ row.drop v.length }
   else none
 
+/-- `a == b` for two 1-D arrays of the same length (as an integer mask after `.astype(np.int64)`) -/
+def eqMask (a b : List Int) : Option (List Int) :=
+  if a.length = b.length then some (List.zipWith (fun x y => if x = y then (1 : Int) else 0) a b) else none
+
+/-- `np.mean(v)` of a non-empty integer vector, exactly (the mean of an empty array is NaN with a warning: `none`) -/
+def meanQ (v : List Int) : Option Rat :=
+  if v.length = 0 then none else some (((v.foldl (· + ·) 0 : Int) : Rat) / (v.length : Rat))
+
 end TFV.Np
